@@ -41,6 +41,7 @@ GENS = [
     G("c16a", ["Enroll", "Dial", "Dial", "ConnectHonest", "Remove"], 9, dict(quick=40, thorough=600), ["C16"]),
     G("c16b", ["Enroll", "Dial", "ConnectHonest", "ConnectNear"], 9, dict(quick=20, thorough=400), ["C16"], nidl=True, sw=True),
     G("c14a", ["Enroll", "Malformed", "Malformed", "Malformed", "Dial"], 12, dict(quick=40, thorough=700), ["C14"]),
+    G("c14c", ["Enroll", "Remove", "Reinit", "ConnectNear", "ConnectRand", "ConnectMixed", "Dial"], 12, dict(quick=25, thorough=500), ["C14"], nidl=True),
     G("c14b", ["Enroll", "Malformed", "Malformed", "Dial", "ConnectOther"], 12, dict(quick=20, thorough=400), ["C14"], regw=True, sw=True),
 ]
 
@@ -66,7 +67,7 @@ def nontrivial(prop, l):
     if prop == "C02":
         return op in ("Connect", "Dial")
     if prop == "C14":
-        return op in ("Malformed", "Dial")
+        return op in ("Malformed", "Dial", "Connect")
     if prop == "C07":
         return op in ("Rogue", "Dial")
     return l["res"] == "auth"
